@@ -281,7 +281,7 @@ func main() {
 				}
 			}
 		}
-		if *tier == "thorough" && filter == nil {
+		if *tier == "thorough" && filter == nil && os.Getenv("LOGGCHECK_NOSELFTEST") == "" { // (debug aid: all build configurations without the variant self-test)
 			st := runSelfTest(vdir, id, *tier, f)
 			applied, killed := 0, 0
 			var survivors []string
